@@ -1,6 +1,6 @@
 -- REGENERATED from src/cache/http_cache.go, src/cache/cmd_cache.go by /verif/harness/extract/c13 on every run. Do not edit.
 namespace PlzVerif.Generated.C13
-def httpOnWalkError : List String := []
+def httpOnWalkError : List String := ["close-with-error", "return"]
 def httpDeferred : List String := ["pipe.Close", "gzip.Close", "tar.Close"]
 def httpClosesPipeNormally : Bool := true
 def storeFileOrder : List String := ["lstat", "header", "open", "copy"]
@@ -9,7 +9,8 @@ def readTarLoopLeftOnlyByReturn : Bool := true
 def httpNotFoundIsMiss : Bool := true
 def httpNon200IsError : Bool := true
 def cmdOnWalkError : List String := ["cancel", "return"]
-def cmdDeferred : List String := ["pipe.Close", "tar.Close"]
+def cmdDeferred : List String := ["pipe.Close"]
+def cmdTarClosedAtEndOfSuccessPath : Bool := true
 def cmdStoreCancellable : Bool := true
 def cmdRetrieveAndsExitStatus : Bool := true
 def cmdRetrieveInputNeverEndsCleanly : Bool := true
